@@ -428,7 +428,9 @@ public:
       for (unsigned i = 0, sz = m_disjuncts.size(); i < sz; ++i) {
         m_disjuncts[i] -= v;
         if (m_disjuncts[i].is_top()) {
+          // only one disjunct is left: stop iterating
           set_to_top();
+          return;
         }
       }
     }
@@ -909,7 +911,9 @@ public:
       for (unsigned i = 0, sz = m_disjuncts.size(); i < sz; ++i) {
         m_disjuncts[i].forget(variables);
         if (m_disjuncts[i].is_top()) {
+          // only one disjunct is left: stop iterating
           set_to_top();
+          return;
         }
       }
     }
